@@ -90,7 +90,11 @@ def run(ctx):
                 if not variants:
                     ctx.undecide('R03.1x', 'no coroutine layout variant on line %s of %s' % (line, b.name))
                 else:
-                    if is_root:
+                    # (a guard that is a local of an inlined async helper lives in the helper's coroutine state, which this
+                    # coroutine saves as a whole: its layout has no field for the guard itself - the dataflow above decides)
+                    ug_held = held_locals(an, y.idx, UG) if is_root else []
+                    in_helper = bool(ug_held) and all(any(lo_ <= h < hi_ for lo_, hi_, _p in b.j.get('helper_locals', [])) for h in ug_held)
+                    if is_root and not in_helper:
                         okl = any(any(adt_of(f['ty']) == UG for f in v['saved']) for v in variants)
                         ctx.ob('R03.1x', 'layout: users guard saved across the await', okl, w,
                                'rustc does not keep the users guard in the coroutine state at this await', construct='layout:users-guard')
